@@ -746,7 +746,12 @@ impl<'a> TokenProducer<'a> {
           }
           Result::Ok(i64) => {
             let maxi32_plus1 = (i32::MAX as i64) + 1;
-            if i64 > maxi32_plus1 || (i64 == maxi32_plus1 && self.pending.is_none()) {
+            // 2147483648 is only in range as the operand of a directly preceding `-`.
+            let follows_minus = matches!(
+              &self.pending,
+              Option::Some(Token(_, TokenContent::Operator(TokenOp::Minus)))
+            );
+            if i64 > maxi32_plus1 || (i64 == maxi32_plus1 && !follows_minus) {
               error_set.report_invalid_syntax_error(loc, "Not a 32-bit integer.".to_string());
             } else if i64 == maxi32_plus1
               && let Option::Some(Token(prev_loc, TokenContent::Operator(TokenOp::Minus))) =
